@@ -86,7 +86,12 @@ def instant_inconsistency(obs):
     """the answer of a status request that was true at NO instant during the request, with the order of its flag reads"""
     for w in status_windows(obs):
         if w["answer"] not in w["true"]:
-            return "status-true-at-no-instant:reads=" + ",".join(dict.fromkeys(w["order"]))
+            order = list(dict.fromkeys(w["order"]))
+            canonical = ["shutdown", "resume", "paused0", "paused1"]
+            # the unchanged provider reads the controller first and then the thread flags (all() / any() may stop early)
+            if len(order) >= 3 and order == canonical[:len(order)]:
+                return "status-true-at-no-instant:reads=controller-then-threads"
+            return "status-true-at-no-instant:reads=" + ",".join(order)
     return None
 
 
